@@ -414,6 +414,12 @@ func init() {
 		}
 		return newError("fmt.Errorf:"+strArg(a[0]), causes...)
 	}
+	intrinsics["strings.Contains"] = func(e *Exec, a []Value) Value {
+		return VBool{BoolC(strings.Contains(strArg(a[0]), strArg(a[1])))}
+	}
+	intrinsics["strings.HasPrefix"] = func(e *Exec, a []Value) Value {
+		return VBool{BoolC(strings.HasPrefix(strArg(a[0]), strArg(a[1])))}
+	}
 	intrinsics["fmt.Sprintf"] = func(e *Exec, a []Value) Value { return VStr{"<sprintf>"} }
 }
 
